@@ -592,7 +592,7 @@ CLIENTS = {"adder": (_adder, 3.0), "gen_adder": (_gen_adder, 2.0), "remover": (_
 class C09(Property):
     id = "C09"
     title = "Object ids in a scenario stay unique and the id pool stays exact"
-    tiers = {"quick": {"runs": 2400, "wall": 150, "chunk": 25}, "thorough": {"runs": 60000, "wall": 1500, "chunk": 50}}
+    tiers = {"quick": {"runs": 8000, "wall": 150, "chunk": 50}, "thorough": {"runs": 400000, "wall": 1500, "chunk": 100}}
     expected_probes = ["rejected-add", "midbatch-rejection", "readd-after-remove", "remove-lanelet-list",
                        "remove-sign-list", "remove-light-list", "remove-intersection-list", "remove-obstacle-list",
                        "remove-intersection-single", "lanelet-removal-takes-sign-or-light",
